@@ -245,3 +245,13 @@ package convert
 //@   let s (str_of val)
 //@   ensures[C08] accepted: (= (= result.1 nil.Any) (or (= s "true") (= s "1") (= s "false") (= s "0")))
 //@   ensures[C08] value: (=> (= result.1 nil.Any) (and (is_bool_ty (vty result.0)) (plain result.0) (= (bool_of result.0) (or (= s "true") (= s "1")))))
+//
+// bool -> string (the two result strings are package variables initialised with StringVal("true") /
+// StringVal("false"): assumed global facts)
+//@ global convert.stringTrue (and (is_string_ty (vty $g)) (plain $g) ((_ is box<string>) (cty.Value.v $g)) (= (str_of $g) "true"))
+//@ global convert.stringFalse (and (is_string_ty (vty $g)) (plain $g) ((_ is box<string>) (cty.Value.v $g)) (= (str_of $g) "false"))
+//@ func convert.init$2
+//@   tags C08
+//@   borrows path
+//@   requires (and (wf_deep val) (plain val) (is_bool_ty (vty val)))
+//@   ensures[C08] text: (and (= result.1 nil.Any) (is_string_ty (vty result.0)) (plain result.0) (= (str_of result.0) (ite (bool_of val) "true" "false")))
